@@ -107,6 +107,16 @@ def correspond(ctx, name, pcs, tag):
     b = {c.id: ppmodel.observable(model.get(c.id)) for c in cases}
     byid = {c.id: pc for c, pc in zip(cases, pcs)}
     diffs = compare(ctx, name, a, b, byid)
+    # hypothesis of SkipFacts.skipped_no_effect, evaluated by the model on the trees of every case
+    sk = ctx.cov.setdefault("skip_hypothesis", {"listed_nodes_met": 0, "cases": 0, "failed_case": None})
+    for c in cases:
+        for l in model.get(c.id) or []:
+            if l.startswith("skiphyp "):
+                w = l.split()
+                sk["cases"] += 1
+                sk["listed_nodes_met"] += int(w[2])
+                if w[1] != "1" and sk["failed_case"] is None:
+                    sk["failed_case"] = byid[c.id].describe()
     for c, pc in zip(cases, pcs):
         r = Res(impl.get(c.id))
         ctx.count("%s:%s" % (pc.tag, "ok" if r.ok else (r.err_kind()[1] if r.err else "crash")))
@@ -148,6 +158,48 @@ def gen_general(r, n, tag="general", **kw):
         pcs.append(PC(texts, strip=r.random() < 0.25, ignore=r.random() < 0.15, predefs=predefs_random(r),
                       meta=files, tag=tag))
     return pcs
+
+
+def gen_scenarios(r, n, tag="scenario"):
+    """multi-step define/undef/redefine histories across includes and macro bodies (ppgen.Gen.scenario)"""
+    pcs = []
+    for _ in range(n):
+        files, texts = general_program(r, scenarios=True, pos=False, strings=r.random() < 0.2, kept=r.random() < 0.2)
+        pcs.append(PC(texts, strip=r.random() < 0.15, predefs=predefs_random(r), meta=files, tag=tag))
+    return pcs
+
+
+def twin_predef(r, pc):
+    """with some probability supply, from the caller, a macro that a file also defines with the very same text"""
+    if pc.meta is None or r.random() > 0.3:
+        return
+    ds = [it for f in pc.meta for it in f.items if it.kind == "define" and it.formals is None and it.body]
+    if ds:
+        it = r.choice(ds)
+        n = ppgen.norm(it.name)
+        pc.predefs = [d for d in pc.predefs if d[0] != n] + [(n, [], " " + it.body)]
+
+
+def scenario_batch(ctx, pid, n, tag):
+    """define / change / observe histories (ppgen.Gen.scenario): correspondence with the model and the
+    reference evaluation of the surviving tokens; reports a violation of [pid] with the failing program"""
+    pcs = gen_scenarios(ctx.rng, n)
+    for pc in pcs:
+        twin_predef(ctx.rng, pc)
+    cases, res, diffs = correspond(ctx, "preprocess (define/undef histories across files and macro bodies) vs PP/Eval.v", pcs, tag)
+    bad = None
+    for pc, rr in zip(pcs, res):
+        if rr.crash:
+            bad = bad or (pc, "the implementation crashed: " + rr.crash)
+            continue
+        why = token_oracle(pc, rr)
+        if why and not in_D4(pc):
+            bad = bad or (pc, why)
+    ctx.obl("search-oracle:define/undef/redefine histories across includes and macro bodies = reference evaluation",
+            "oracle", bad is None, bad[1] if bad else "")
+    if bad:
+        report(ctx, pid, "a definition or undefinition made elsewhere is not in force where it should be", bad[0], bad[1])
+    return pcs, res
 
 
 def ref_predefs(pc):
@@ -193,6 +245,8 @@ def token_oracle(pc, res):
     try:
         ref = ref_tokens(pc)
     except ppgen.RefError as e:
+        if e.kind == "Unspecified":
+            return None
         if res.ok:
             return "reference says %s but the implementation returned Ok" % e.kind
         return None
